@@ -148,6 +148,10 @@ def site_of(case, val):
                 return "SliceNode"
             if v.get("__loader__") == "FunctionNode" and proto == 0:
                 return "FunctionNode@0"
+        if isinstance(v, dict) and v.get("__loader__") == "FunctionNode" and proto == 0 and isinstance(v.get("content"), dict):
+            # since the D31-FunctionNode@0 repair the row of a protocol-0 FunctionNode displays the name its content holds
+            if f"{v['content'].get('module_path')}.{v['content'].get('function')}" == val:
+                return "FunctionNode@0"
     return None
 
 
@@ -217,20 +221,93 @@ def hidden_parent_shown_child(rows, show):
     return any(not row_visible(a, show) and b["level"] > a["level"] and row_visible(b, show) for a, b in zip(rows[1:], rows[2:]))
 
 
+def fn0_default(snap=None):
+    """a name the protocol-0 FunctionNode trusts by default in the environment under test (coq/props/C13.v: fn0_default)"""
+    return ((snap or {}).get("classes", {}).get("old._general_v0.FunctionNode", {}).get("defaults") or ["scipy.special._ufuncs.expit"])[0]
+
+
 def PROBE_CASES(snap=None):
-    """fixed witnesses of the findings D31 (display name vs audited name): FunctionNode@0 is open; SliceNode was repaired in
-    /repo (SliceNode.get_unsafe_set reports the header's type) and its witness, alone and nested in a list, must now be
-    reported -- replayed on every run (coq/props/C13.v: C13_slice_name_reported)"""
+    """fixed witnesses of the findings D31 (display name vs audited name), both repaired in the code under test and replayed on
+    every run.  SliceNode (SliceNode.get_unsafe_set reports the header's type): its witness, alone and nested in a list, must be
+    reported (coq/props/C13.v: C13_slice_name_reported).  FunctionNode@0 (the protocol-0 FunctionNode displays and self-checks the
+    name it audits, content.module_path.function; C13_function_v0_name_shown): the first witness (header x.y, content a
+    default-trusted ufunc, at the root), a GENUINE old file (header = module of the ufunc + its type "ufunc") and a TAMPERED one
+    (header = the trusted ufunc, content = os.getcwd), both inside a list -- see fn0_witnesses for what they must show"""
     sl = {"__class__": "y", "__module__": "x", "__loader__": "SliceNode", "__id__": 1, "content": {"start": None, "stop": None, "step": None}, "protocol": 2}
     f0 = {"__class__": "y", "__module__": "x", "__loader__": "FunctionNode", "__id__": 1, "content": {"module_path": "numpy", "function": "sqrt"}, "protocol": 0}
-    d = ((snap or {}).get("classes", {}).get("old._general_v0.FunctionNode", {}).get("defaults") or ["scipy.special._ufuncs.expit"])[0]
-    f0["content"] = {"module_path": d.rpartition(".")[0], "function": d.rpartition(".")[2]}
+    d = fn0_default(snap)
+    dm, df = d.rpartition(".")[0], d.rpartition(".")[2]
+    f0["content"] = {"module_path": dm, "function": df}
     sl_in_list = {"__class__": "list", "__module__": "builtins", "__loader__": "ListNode", "__id__": 1, "protocol": sl["protocol"],
                   "content": [{k: v for k, v in sl.items() if k != "protocol"} | {"__id__": 2}]}
+
+    def fn_in_list(hm, hc, cm, cf):
+        return {"__class__": "list", "__module__": "builtins", "__loader__": "ListNode", "__id__": 1, "protocol": 0,
+                "content": [{"__class__": hc, "__module__": hm, "__loader__": "FunctionNode", "__id__": 2, "content": {"module_path": cm, "function": cf}}]}
     out = []
-    for sch in (sl, sl_in_list, f0):
-        out.append({"schema": sch, "members": [], "tspec": "none", "tseed": 0, "show": "all", "malformed": False, "wellformed": True, "notes": ["probe"]})
+    for sch, note in ((sl, "probe"), (sl_in_list, "probe"), (f0, "fn0-root"), (fn_in_list(dm, "ufunc", dm, df), "fn0-genuine"),
+                      (fn_in_list(dm, df, "os", "getcwd"), "fn0-tampered")):
+        for show in (("all",) if note == "probe" else ("all", "untrusted", "trusted")):
+            out.append({"schema": sch, "members": [], "tspec": "none", "tseed": 0, "show": show, "malformed": False, "wellformed": True, "notes": ["probe", note]})
+    # malformed contents of a protocol-0 FunctionNode: format() is the first of walk_tree's three calls, so visualize raises
+    # what _get_function_name() raises (KeyError for a missing key, TypeError for a non-dict content or a non-str part --
+    # a non-str module_path before a missing function is looked up); compared with the model like every other case
+    for cont in ({"module_path": dm}, {"function": df}, {"module_path": 1}, {"module_path": None, "function": df}, {"module_path": dm, "function": 2},
+                 {"module_path": [dm], "function": df}, {}, "text", [dm, df], None, 3):
+        sch = fn_in_list(dm, "ufunc", dm, df)
+        sch["content"][0]["content"] = cont
+        out.append({"schema": sch, "members": [], "tspec": "none", "tseed": 0, "show": "all", "malformed": True, "wellformed": False, "notes": ["probe", "fn0-malformed"]})
     return out
+
+
+def fn0_witnesses(R, snap, cases, recs):
+    """the former witnesses of D31-FunctionNode@0 against the implementation, stated on its own output (no model involved):
+    a protocol-0 FunctionNode's row displays the name the audit looks at and is tagged exactly when the audit reports it.
+    fn0-root / fn0-genuine: nothing reported, no row tagged [UNSAFE], every row fully safe, the function's row shows the trusted
+    ufunc's name and nothing shows the header's module.class; fn0-tampered: os.getcwd reported, and the function's row shows
+    os.getcwd, tagged and not fully safe, while the trusted name of the header is shown nowhere"""
+    d = fn0_default(snap)
+    sig = {"kind": "safe-flag-vs-displayed-name", "site": "FunctionNode@0"}
+    seen = 0
+    for c, r in zip(cases, recs):
+        note = [x for x in c.get("notes", []) if x in ("fn0-root", "fn0-genuine", "fn0-tampered")]
+        if not note or c.get("tspec") != "none":
+            continue
+        seen += 1
+        rows = rows_of(r)
+        fails = []
+        fn = c["schema"] if note[0] == "fn0-root" else c["schema"]["content"][0]
+        header = f"{fn['__module__']}.{fn['__class__']}"
+        if rows is None or not r["gut"].startswith("ok:"):
+            fails.append(f"rows / get_untrusted_types did not complete: {r['rows'][:80]} / {r['gut'][:80]}")
+        elif note[0] in ("fn0-root", "fn0-genuine"):
+            if r["gut"] != "ok:":
+                fails.append(f"get_untrusted_types reports {r['gut'][3:]!r} for a default-trusted ufunc")
+            if any(not x["self"] for x in rows):
+                fails.append("a row is tagged [UNSAFE] although nothing is reported: " + "; ".join(row_text(x) for x in rows if not x["self"]))
+            if any(not x["safe"] for x in rows):
+                fails.append("a row is not fully safe although nothing is reported")
+            if not any(x["val"] == d for x in rows):
+                fails.append(f"no row displays the function's name {d}: rows show {[x['val'] for x in rows]}")
+            if header != d and any(x["val"] == header for x in rows):
+                fails.append(f"a row displays the header's {header} (the type of the function), which the audit does not look at")
+        else:
+            if r["gut"] != "ok:os.getcwd":
+                fails.append(f"get_untrusted_types gives {r['gut']!r}, expected os.getcwd")
+            hit = [x for x in rows if x["val"] == "os.getcwd"]
+            if not hit:
+                fails.append(f"os.getcwd is audited and would be imported but no row displays it: rows show {[x['val'] for x in rows]}")
+            if any(x["self"] or x["safe"] for x in hit):
+                fails.append("the row of os.getcwd is not tagged [UNSAFE] / is marked fully safe")
+            if any(x["val"] == header for x in rows):
+                fails.append(f"a row displays the trusted name {header} of the header, which the audit does not look at")
+            if rows and rows[0]["safe"]:
+                fails.append("the root row is fully safe above an untrusted function")
+        if fails and c["show"] == "all":
+            R.violation(sig, f"{note[0]} (former witness of D31-FunctionNode@0): " + " | ".join(fails),
+                        {"case": {k: c[k] for k in ("schema", "members", "show")}, "T": r["T"], "observed": {k: r[k] for k in ("rows", "vis", "gut", "load")}})
+        R.count("fn0-witness:" + note[0] + (":fails" if fails else ":ok"))
+    R.notes["fn0_witnesses_replayed"] = seen
 
 
 def PRINT_CASES():
@@ -302,6 +379,7 @@ def run(R, only_cases=None):
             if len(item) > 2:
                 sig = {"kind": "safe-flag-vs-displayed-name", "site": item[2]}
             R.violation(sig, what, {"case": {k: c[k] for k in ("schema", "members", "show")}, "T": r["T"], "observed": {k: r[k] for k in ("rows", "vis", "gut", "load")}})
+    fn0_witnesses(R, snap, cases, recs)
     R.sample({"schema": cases[0]["schema"], "trusted": recs[0]["T"], "show": cases[0]["show"], "visualize": recs[0]["vis"][:400]})
     R.notes["uncovered"] = IO.uncovered_kinds(R, snap)
     if only_cases is None:
